@@ -317,8 +317,15 @@ impl Indexable for ast::If {
     type Output = ();
     fn index(&self, ctx: &mut IndexCtx) -> Option<Self::Output> {
         self.condition()?.index(ctx);
-        self.then_body()?.index(ctx);
-        self.else_body()?.index(ctx);
+        // each branch is a block of its own: what it declares ends with it
+        let then_body = self.then_body()?;
+        ctx.scopes.push(ScopeKind::Block);
+        then_body.index(ctx);
+        ctx.scopes.pop();
+        let else_body = self.else_body()?;
+        ctx.scopes.push(ScopeKind::Block);
+        else_body.index(ctx);
+        ctx.scopes.pop();
         None
     }
 }
@@ -327,7 +334,10 @@ impl Indexable for ast::Let {
     type Output = ();
     fn index(&self, ctx: &mut IndexCtx) -> Option<Self::Output> {
         self.let_list()?.index(ctx);
-        self.statement_list()?.index(ctx);
+        let statement_list = self.statement_list()?;
+        ctx.scopes.push(ScopeKind::Block);
+        statement_list.index(ctx);
+        ctx.scopes.pop();
         None
     }
 }
